@@ -87,6 +87,8 @@ class AV:
             k = set(self.kinds & ARRAYISH)
             k.add("scalar")
             parts.append(AV(k, self.orig))
+            if "any" in self.kinds and self.elem is not None and self.elem is not self:
+                parts.append(self.elem)
         if self.kinds & {"list", "tuple", "dict", "set"}:
             if self.items is not None and self.items:
                 parts.append(join_all(self.items))
